@@ -161,7 +161,7 @@ def rest_api():
     E = "google.protobuf.Empty"
     fb.method(s, "GetThing", "GetRequest", "Book", http=("get", "/v1/{name=things/*}"))
     fb.method(s, "PutThing", "PutRequest", "Book", http=("put", "/v1/{name=things/*}", "book"),
-              extra_http=[("put", "/v1/{name=shelves/*/things/*}", "book")])
+              extra_http=[("put", "/v1/{name=shelves/*/things/*}", "*")])      # additional binding with its OWN body
     fb.method(s, "PostThing", "PostRequest", "Book", http=("post", "/v1/{parent=shelves/*}/things", "*"))
     fb.method(s, "PatchThing", "PatchRequest", "Book", http=("patch", "/v1/{book.name=things/*}", "book"))
     fb.method(s, "DeleteThing", "DeleteRequest", E, http=("delete", "/v1/{name=things/*}"),
